@@ -30,7 +30,7 @@ ASSUMPTIONS = [
 DESCRS = [None, None, "plain", "  padded  ", "multi\nline", "", "with <angle> & amp"]
 
 
-def gen_ts(rng, n_types):
+def gen_ts(rng, n_types, finding_stream=False):
     """a type system through the API, with descriptions, every kind of range, element types, tri-state flag,
     reserved names, no-namespace types, mutually recursive ranges"""
     sb = SB()
@@ -46,16 +46,53 @@ def gen_ts(rng, n_types):
         if sh.create_type(name, sup) == "ok":
             sb.create_type(ts, name, sup, descr=d)
             user.append(name)
-    for n in user:
-        for _ in range(rng.randint(0, 4)):
+    # features are declared in an arbitrary order over the types (also on a subtype before its ancestor); declaring a feature
+    # on an ancestor of a type that already declares it identically is finding X12 and only generated in the finding stream
+    slots = [n for n in user for _ in range(rng.randint(0, 4))]
+    rng.shuffle(slots)
+    if finding_stream and len(user) >= 2:
+        slots += [rng.choice(user) for _ in range(3)]
+    recent = []
+    for n in slots:
+        for _ in range(1):
+            if finding_stream and recent and rng.random() < 0.5:
+                # copy a declaration of a descendant to one of its ancestors
+                dn, (fname, r, el, d, multi) = rng.choice(recent)
+                ancs = [a for a in sh.ancestors(dn)[1:] if a in user]
+                if ancs:
+                    an = rng.choice(ancs)
+                    if sh.create_feature(an, fname, r, el, d, multi) == "ok":
+                        sb.create_feature(ts, an, fname, r, elem=el, descr=d, multi=multi)
+                    continue
             fname = rng.choice(["f", "g", "self", "type", "value", "k1", "k2", "ref", "class_", "label_", "self_"])
             r = rng.choice(tsgen.RANGES_PRIM + tsgen.RANGES_COLL + user + ["uima.tcas.Annotation", "uima.cas.TOP"])
             el = rng.choice([None, "uima.tcas.Annotation", "uima.cas.TOP"] + user[:2]) if r in ("uima.cas.FSArray", "uima.cas.FSList") else None
             multi = rng.choice([None, None, True, False])
             d = rng.choice(DESCRS)
+            pyname = fname + "_" if fname in ("self", "type") else fname
+            if not finding_stream and any(g["name"] == pyname for t_ in sh.descendants(n)[1:] for g in sh.own[t_]):
+                continue   # region of X12 (or a conflict): a descendant already declares this name
             if sh.create_feature(n, fname, r, el, d, multi) == "ok":
                 sb.create_feature(ts, n, fname, r, elem=el, descr=d, multi=multi)
+                recent.append((n, (fname, r, el, d, multi)))
     return sb, ts, user
+
+
+def shadowed(ops):
+    """names (type, feature) that a type declares although an ancestor declares the same feature: replay of the API calls"""
+    sh = tsgen.Shadow()
+    for o in ops:
+        if o.get("op") == "ts.create_type" and o.get("ts", 0) == 0:
+            sh.create_type(o["name"], o.get("super") or "uima.tcas.Annotation")
+        elif o.get("op") == "ts.create_feature" and o.get("ts", 0) == 0:
+            sh.create_feature(o["domain"], o["name"], o["range"], o.get("elem"), o.get("descr"), o.get("multi"))
+    out = []
+    for t in sh.order:
+        if t in sh.K["predefined"]:
+            continue
+        inh = {g["name"] for a in sh.ancestors(t)[1:] for g in sh.own[a]}
+        out += [(t, f["name"]) for f in sh.own[t] if f["name"] in inh]
+    return out
 
 
 REDECL_SETS = [["uima.tcas.Annotation"], ["uima.tcas.Annotation", "uima.cas.AnnotationBase"], ["uima.cas.FSArray", "uima.cas.ArrayBase"],
@@ -96,6 +133,8 @@ def run(ctx, out, budget):
     n = bud(budget, 80, 6000)
     nperm = bud(budget, 4, 8)
     gens = [gen_ts(rng, rng.randint(1, 8)) for _ in range(n)]
+    # finding stream (X12): a feature declared on a subtype and afterwards identically on an ancestor
+    gens += [gen_ts(rng, rng.randint(2, 6), finding_stream=True) for _ in range(bud(budget, 12, 300))]
     stage_a = [list(sb.ops) + [{"op": "ts.to_xml", "ts": ts}, {"op": "ts.query", "ts": ts, "kind": "dump"}] for sb, ts, user in gens]
     ia = sessions.run_impl_sessions(stage_a)
     stage_b, metas = [], []
@@ -203,6 +242,50 @@ def run(ctx, out, budget):
         out.evaluations += 1
         if x2 != x3:
             out.oracle_failures.append({"scenario": {"k": "session", "ops": ops}, "what": "re-emission of a loaded type system is not byte-identical"})
+
+
+def finding_of(fl):
+    """X12: the original declares a feature on a type and identically on an ancestor, and the failure is exactly the loss of
+    those redundant own declarations (anything else on such a type system is still reported)"""
+    ops = (fl.get("scenario") or {}).get("ops") or []
+    sh = set(shadowed(ops))
+    if not sh:
+        return None
+    what = fl.get("what", "")
+    try:
+        if what == "type system loaded from its descriptor differs from the original":
+            exp = copy.deepcopy(fl["expected"])
+            for t, rec in exp.items():
+                rec["own"] = [f for f in rec["own"] if (t, f["name"]) not in sh]
+            return "X12-shadowed-own-feature" if common.canon(exp) == common.canon(fl["actual"]) else None
+        if what == "re-emitting the loaded type system does not reproduce the descriptor":
+            exp = copy.deepcopy(fl["expected"])
+            for t in exp:
+                t["feats"] = [f for f in t["feats"] if (t["name"], f["name"] + "_" if f["name"] in ("self", "type") else f["name"]) not in sh]
+            return "X12-shadowed-own-feature" if common.canon(exp) == common.canon(fl["actual"].get("ok")) else None
+    except Exception:
+        return None
+    return None
+
+
+def run_witness(ctx, finding):
+    if finding["id"] != "X12-shadowed-own-feature":
+        return False
+    import warnings
+    from cassis import TypeSystem, load_typesystem
+    with warnings.catch_warnings():
+        warnings.simplefilter("ignore")
+        ts = TypeSystem()
+        for o in finding["witness"]["ops"]:
+            if o[0] == "create_type":
+                ts.create_type(o[1], o[2])
+            else:
+                ts.create_feature(ts.get_type(o[1]), o[2], o[3])
+        x1 = ts.to_xml()
+        t2 = load_typesystem(x1)
+        own1 = [f.name for f in ts.get_type("x.B").features]
+        own2 = [f.name for f in t2.get_type("x.B").features]
+        return own1 == ["f"] and own2 == [] and t2.to_xml() != x1
 
 
 def replay(ctx, payload):
